@@ -142,11 +142,9 @@ def _check(world: World, host: AppHost, session: Session, out: Outcome) -> None:
                             culprits.append(other)
                             if blocked == "no":
                                 blocked = "sibling"
-                cause = "other"
+                cause = _conn_cause(world, host, reqs, req)
                 full = [c for c in culprits if len(c.leftover) >= world.config.max_app_queue_size]
                 culprit = full[0] if full else (culprits[0] if culprits else None)
-                if full:
-                    cause = "recv-queue-full"
                 bad("disconnect-missing", f"{inst.tag!r}: instance was never sent http.disconnect "
                     f"(ended: {inst.end}, delivered: {kinds[-3:]}, blocked in send: {blocked}, "
                     f"unread messages queued: {len(culprit.leftover) if culprit else 0} of "
@@ -197,8 +195,10 @@ def _conn_cause(world: World, host: AppHost, reqs: Dict[bytes, Req], req: Any) -
         return "other"
     for other in host.instances:
         oreq = reqs.get(other.tag)
-        if oreq is not None and oreq.conn_index == req.conn_index and _blocked_in_send(other) != "no" \
+        if oreq is not None and oreq.conn_index == req.conn_index \
                 and len(other.leftover) >= world.config.max_app_queue_size:
+            # either blocked in its own send(), or already returned with the server's put of the
+            # disconnect stuck behind the unread messages (which also stalls the reader for siblings)
             return "recv-queue-full"
     return "other"
 
